@@ -123,6 +123,10 @@ def run(tier, seed, replay=None):
             limit = rnd.choice([1, 3, 16, 64, 5000])
             cases.append(("disc %d %s" % (limit, ",".join(words)),
                           ["all " + " ".join("%d %d" % n for n in nets)], "disc", len(nets), limit))
+        # slow readers: each probe takes well over twice the probe timeout though no single step exceeds it; a run that nobody
+        # cancels still enumerates every host (one worker, so the probes add up)
+        a = (127 << 24) | (rnd.randrange(1, 255) << 16) | (rnd.randrange(0, 256) << 8) | (rnd.randrange(0, 32) * 8)
+        cases.append(("discslow 1 %s/29" % ip_s(a), ["all %d 29" % a], "disc", 1, 1))
         # the same with devices already registered in EdgeX and operating at some of the enumerated addresses: they are enumerated
         # (the estimate counts them: it "equals the number enumerated") but not probed; incl. subnets ALL of whose hosts are registered
         def hosts_of(a, p):
